@@ -3,7 +3,7 @@
 //! (kind, variable order, thread configuration); n = 4 block in the thorough
 //! tier.
 
-use oxidd::{BooleanFunction, Function, ManagerRef};
+use oxidd::{BooleanFunction, ManagerRef};
 use serde_json::json;
 
 use super::boolops::*;
